@@ -228,7 +228,8 @@ func filterTruncatechars(in *Value, param *Value) (*Value, *Error) {
 
 func filterTruncatecharsHTML(in *Value, param *Value) (*Value, *Error) {
 	value := in.String()
-	newLen := max(param.Integer()-3, 0)
+	// (3 is subtracted from what is at least 3: the smallest ints would wrap around)
+	newLen := max(param.Integer(), 3) - 3
 
 	newOutput := bytes.NewBuffer(nil)
 
